@@ -141,6 +141,9 @@ func zeroValue(t types.Type) Value {
 		case u.Info()&types.IsString != 0:
 			return StrV{}
 		case u.Kind() == types.Float64 || u.Kind() == types.UntypedFloat:
+			if exactIntFloats.Load() {
+				return ConstI(0, 64)
+			}
 			return ConstF(0)
 		case u.Kind() == types.Float32:
 			return ConstF32(0)
